@@ -1934,3 +1934,86 @@ func passesThrough(pk *packages.Package, call *ast.CallExpr, j, k int) bool {
 	})
 	return good
 }
+
+// ruleEnqueueNonBlocking (C11/C12): a subsystem's (or plugin's) Enqueue is called on the kernel
+// goroutine, which is also the only consumer of the completion queue the subsystem's workers block
+// on. Enqueue therefore never waits: every send it performs is an arm of a select that has a default
+// arm (and a refused entry is reported by `false`, which the caller turns into an explicit
+// queue-full answer). A blocking send deadlocks the kernel under back-pressure: no request is
+// answered any more and the loop never returns.
+func ruleEnqueueNonBlocking(c *Ctx) {
+	pkgs := append([]string{pkgSqlite, pkgPostgres}, workerPkgs...)
+	n := 0
+	seen := map[string]bool{}
+	for _, pp := range pkgs {
+		if seen[pp] {
+			continue
+		}
+		seen[pp] = true
+		pk := c.P.Pkg(pp)
+		if pk == nil {
+			continue
+		}
+		info := pk.TypesInfo
+		for _, fd := range allFuncDecls(pk) {
+			if fd.Body == nil || fd.Recv == nil || fd.Name.Name != "Enqueue" || isTestFile(c.P, fd.Pos()) {
+				continue
+			}
+			sig := info.Defs[fd.Name].(*types.Func).Type().(*types.Signature)
+			if sig.Results().Len() != 1 {
+				continue
+			}
+			if b, ok := sig.Results().At(0).Type().Underlying().(*types.Basic); !ok || b.Kind() != types.Bool {
+				continue
+			}
+			n++
+			key := "enqueue-non-blocking/" + pk.Name + "." + funcName(fd)
+			var bad ast.Node
+			nSend := 0
+			var scan func(body *ast.BlockStmt, depth int)
+			scan = func(body *ast.BlockStmt, depth int) {
+				ast.Inspect(body, func(nd ast.Node) bool {
+					switch x := nd.(type) {
+					case *ast.FuncLit:
+						return false
+					case *ast.SendStmt:
+						nSend++
+						nonBlocking := false
+						chain := enclosing(body, x)
+						for i := len(chain) - 1; i >= 0; i-- {
+							if cc, ok := chain[i].(*ast.CommClause); ok && cc.Comm == ast.Stmt(x) && i >= 2 {
+								if sel, ok := chain[i-2].(*ast.SelectStmt); ok {
+									for _, st := range sel.Body.List {
+										if st.(*ast.CommClause).Comm == nil {
+											nonBlocking = true
+										}
+									}
+								}
+							}
+						}
+						if !nonBlocking && bad == nil {
+							bad = x
+						}
+					case *ast.CallExpr:
+						if depth < 1 {
+							if fn, ok := calleeOf(info, x).(*types.Func); ok && fn.Pkg() == pk.Types {
+								if hd := funcDeclOf(pk, fn); hd != nil && hd.Body != nil && hd != fd {
+									scan(hd.Body, depth+1)
+								}
+							}
+						}
+					}
+					return true
+				})
+			}
+			scan(fd.Body, 0)
+			pos := fd.Pos()
+			if bad != nil {
+				pos = bad.Pos()
+			}
+			c.check(bad == nil && nSend >= 1, key, pos, "every send is an arm of a select with a default arm", funcName(fd)+" performs a send that can block (or none at all): Enqueue runs on the kernel goroutine, which alone drains the completion queue the workers block on — under back-pressure the kernel deadlocks and no request is answered any more")
+		}
+	}
+	c.count("enqueue_methods", n)
+	c.floor("subsystem / plugin Enqueue methods", n, 6)
+}
